@@ -11,7 +11,10 @@ EXTENDS Naturals, Sequences, TLC
 \*  kids  : per open container, number of block children so far (parallel to open, plus one for the document at index 0 -> stored as first element)
 \*  bq    : position in `open` of the innermost quote that the pending blank line was inside of (0 = none): a blank line
 \*          inside a quote only separates blocks inside that quote, never the children of an enclosing list item
-Init0 == [open |-> <<>>, out |-> <<>>, loose |-> <<>>, para |-> FALSE, fence |-> FALSE, blank |-> FALSE, bq |-> 0, kids |-> <<0>>]
+\*  th    : the current paragraph consists of exactly one line and that line is a table header row (a delimiter row would make it a table)
+\*  tbl   : the innermost container's current block is a GFM table (any following non-blank line of the container is a row)
+Init0 == [open |-> <<>>, out |-> <<>>, loose |-> <<>>, para |-> FALSE, fence |-> FALSE, blank |-> FALSE, bq |-> 0, kids |-> <<0>>,
+          th |-> FALSE, tbl |-> FALSE]
 InnerQ(open) == IF \E j \in 1..Len(open) : open[j].k = "Q"
                 THEN CHOOSE j \in 1..Len(open) : open[j].k = "Q" /\ \A m \in (j + 1)..Len(open) : open[m].k # "Q"
                 ELSE 0
@@ -38,6 +41,7 @@ CloseTo(st, n) ==  \* close containers above depth n
   [st EXCEPT !.open = SubSeq(st.open, 1, n), !.out = st.out \o Closers(Len(st.open) - n),
              !.kids = SubSeq(st.kids, 1, n + 1),
              !.para = IF n < Len(st.open) THEN FALSE ELSE st.para,
+             !.th = IF n < Len(st.open) THEN FALSE ELSE st.th, !.tbl = IF n < Len(st.open) THEN FALSE ELSE st.tbl,
              !.fence = IF n < Len(st.open) THEN FALSE ELSE st.fence]
 \* a new block child starts in the innermost open container: tightness bookkeeping
 NoteChild(st) ==
@@ -70,21 +74,27 @@ Step(st, l) ==
       m == Match(st.open, 1, l.p, isBlank)
       startsItem == m.rest # <<>> /\ Head(m.rest) = "B"
       n == TrimL(st.open, m.n, startsItem)
-      lazy == st.para /\ ~st.fence /\ l.b = "text" /\ n < Len(st.open) /\ \A j \in 1..Len(m.rest) : m.rest[j] = "I"
+      textLike == l.b \in {"text", "thead", "tdelim", "trow"}
+      lazy == st.para /\ ~st.fence /\ textLike /\ n < Len(st.open) /\ \A j \in 1..Len(m.rest) : m.rest[j] = "I"
   IN IF isBlank
        THEN \* blank line: closes quotes it does not carry a marker for; ends paragraphs; items stay open
             LET s1 == CloseTo(st, n) IN
-            IF s1.fence THEN s1 ELSE [s1 EXCEPT !.para = FALSE, !.blank = TRUE, !.bq = InnerQ(s1.open)]
-     ELSE IF lazy THEN st
+            IF s1.fence THEN s1 ELSE [s1 EXCEPT !.para = FALSE, !.blank = TRUE, !.bq = InnerQ(s1.open), !.th = FALSE, !.tbl = FALSE]
+     ELSE IF lazy THEN [st EXCEPT !.th = FALSE]
      ELSE LET s1 == CloseTo(st, n) IN
           IF s1.fence /\ (\A j \in 1..Len(m.rest) : m.rest[j] = "I")
             THEN (IF l.b = "fence" THEN [s1 EXCEPT !.fence = FALSE] ELSE s1)
           ELSE LET s2 == OpenNew(s1, m.rest)
                    fresh == (\E j \in 1..Len(m.rest) : m.rest[j] # "I") \/ n < Len(st.open)
-               IN CASE l.b = "text" -> IF s2.para /\ ~fresh THEN s2
-                                       ELSE [NoteChild(s2) EXCEPT !.out = Append(@, "P"), !.para = TRUE]
-                    [] l.b = "head" -> [NoteChild(s2) EXCEPT !.out = Append(@, "H"), !.para = FALSE]
-                    [] l.b = "fence" -> [NoteChild(s2) EXCEPT !.out = Append(@, "C"), !.para = FALSE, !.fence = TRUE]
+               IN CASE textLike ->
+                         IF s2.tbl /\ ~fresh THEN s2                                        \* any line directly after table rows is a row
+                         ELSE IF l.b = "tdelim" /\ s2.para /\ s2.th /\ ~fresh
+                           THEN [s2 EXCEPT !.out = [@ EXCEPT ![Len(@)] = "T"], !.para = FALSE, !.th = FALSE, !.tbl = TRUE]   \* header + delimiter = table
+                         ELSE IF s2.para /\ ~fresh THEN [s2 EXCEPT !.th = FALSE]
+                         ELSE [NoteChild(s2) EXCEPT !.out = Append(@, "P"), !.para = TRUE, !.th = (l.b = "thead"), !.tbl = FALSE]
+                    [] l.b = "head" -> [NoteChild(s2) EXCEPT !.out = Append(@, "H"), !.para = FALSE, !.th = FALSE, !.tbl = FALSE]
+                    [] l.b = "hr" -> [NoteChild(s2) EXCEPT !.out = Append(@, "R"), !.para = FALSE, !.th = FALSE, !.tbl = FALSE]
+                    [] l.b = "fence" -> [NoteChild(s2) EXCEPT !.out = Append(@, "C"), !.para = FALSE, !.fence = TRUE, !.th = FALSE, !.tbl = FALSE]
 RECURSIVE ReadFrom(_, _, _)
 ReadFrom(st, lines, j) == IF j > Len(lines) THEN st ELSE ReadFrom(Step(st, lines[j]), lines, j + 1)
 Read(lines) == LET st == CloseTo(ReadFrom(Init0, lines, 1), 0) IN [toks |-> st.out, loose |-> st.loose]
